@@ -17,9 +17,9 @@ from vlib import cfg, MV
 
 MANIFEST = dict(
     technique='TLA+ P-spec Waiter + I-spec WaiterImpl (pkg/ilist list, PushBack/Remove transcribed) checked in lockstep by TLC (exhaustive, all contract-respecting op sequences up to a bound); every transition of the TLC state graph replayed on the real waiter.Queue; sequential and racing goroutine histories (call/ret + callback events) linearized by TLC against the P-spec',
-    text='TLC enumerates every register/unregister/notify/take sequence over 3 entries x all masks over {in,out} up to the bound and checks that the linked list is well-formed and equals the registered set, that a notification calls back exactly the registered entries with intersecting mask once each, and that tokens are sticky. The real Queue is driven through every edge of the (smaller-bound) state graph and must show the same callback counts, channel tokens and take results after every step. Seeded concurrent histories (<=4 goroutines x 5 ops, callbacks logged from inside the callback) must be linearizable: every callback belongs to a Notify linearized while the entry was registered with intersecting mask, exactly one per owed entry, none after the return of Unregister, tokens taken exactly once.',
+    text='TLC enumerates every register/unregister/notify/take/new-channel-entry sequence over 3 entries x all masks over {in,out} up to the bound and checks that the linked list is well-formed and equals the registered set, that a notification calls back exactly the registered entries with intersecting mask once each, and that tokens are sticky. The real Queue is driven through every edge of the (smaller-bound) state graph and must show the same callback counts, channel tokens and take results after every step. Seeded concurrent histories (<=4 goroutines x 5 ops, callbacks logged from inside the callback) must be linearizable: every callback belongs to a Notify linearized while the entry was registered with intersecting mask, exactly one per owed entry, none after the return of Unregister, tokens taken exactly once.',
     design='5 C17',
-    note='Bounds: 3 entries (callback and channel-backed), masks over {in,out} (sequential traces: all six event bits), op sequences <= 6 (quick) / 8 (thorough) for TLC, <= 4..7 for the replayed graphs; concurrent histories <= 4 goroutines x 5 ops (DESIGN said 8 goroutines: reduced to keep the TLC search small). Contract misuse (double register, unregister of an unregistered entry, callbacks calling the queue) is excluded. The no-lock/torn-list class of defects is only reachable through real scheduling: callbacks sleep briefly to widen the window, detection is probabilistic per history. Trusted: Go channels/RWMutex, goroutine-state parsing for the quiescent-hang verdict.')
+    note='Bounds: 3 entries (callback and channel-backed; a channel entry may be re-created at any step on any existing channel, so entries share channels; one queue), masks over {in,out} (sequential traces: all six event bits), op sequences <= 6 (quick) / 8 (thorough) for TLC, <= 4..7 for the replayed graphs; concurrent histories <= 4 goroutines x 5 ops (DESIGN said 8 goroutines: reduced to keep the TLC search small). Contract misuse (double register, unregister of an unregistered entry, callbacks calling the queue) is excluded. The no-lock/torn-list class of defects is only reachable through real scheduling: callbacks sleep briefly to widen the window, detection is probabilistic per history. Trusted: Go channels/RWMutex, goroutine-state parsing for the quiescent-hang verdict.')
 
 SPEC = ['waiter']
 INV = ['TypeOK', 'ListOK', 'Refines']
@@ -196,6 +196,10 @@ GOOD = [
     # a take racing with a Notify may miss the token, which then stays
     H(*REG_H1, call(1, 'notify', m=['in']), call(2, 'take', 'h1'), ret(2, False), ret(1), call(2, 'take', 'h1'), ret(2, True),
       call(2, 'take', 'h1'), ret(2, False), dict(ev='obs', tokens=dict(h1=0))),
+    # a second entry created on the shared, non-empty channel: the pending token stays for the waiter
+    H(*REG_H1, call(1, 'notify', m=['in']), ret(1), dict(ev='new', g=2, e='h2', c='h1'), dict(ev='obs', tokens=dict(h1=1, h2=0)),
+      call(2, 'register', 'h2', ['out']), ret(2), call(1, 'notify', m=['out']), ret(1), call(0, 'take', 'h1'), ret(0, True),
+      call(0, 'take', 'h1'), ret(0, False), call(0, 'take', 'h2'), ret(0, False)),
     # two notifies, one token
     H(*REG_H1, call(1, 'notify', m=['in']), ret(1), call(1, 'notify', m=['in', 'out']), ret(1), dict(ev='obs', tokens=dict(h1=1)),
       call(0, 'unregister', 'h1'), ret(0), call(2, 'take', 'h1'), ret(2, True)),
@@ -207,6 +211,8 @@ BAD = [
      H(*REG_C1, call(1, 'notify', m=['in']), ret(1))),
     ('token lost',
      H(*REG_H1, call(1, 'notify', m=['in']), ret(1), call(2, 'take', 'h1'), ret(2, False))),
+    ('token eaten by NewChannelEntry on the shared channel',
+     H(*REG_H1, call(1, 'notify', m=['in']), ret(1), dict(ev='new', g=2, e='h2', c='h1'), call(0, 'take', 'h1'), ret(0, False))),
     ('callback twice',
      H(*REG_C1, call(1, 'notify', m=['in']), cb(1, 'c1'), cb(1, 'c1'), ret(1))),
     ('callback with non-intersecting mask',
@@ -246,7 +252,7 @@ def safe_cb(seg):
 
 
 def selftests(ctx, segs, rejected, seqsegs):
-    bad = BAD if ctx.thorough() else [BAD[0], BAD[2]]
+    bad = BAD if ctx.thorough() else [BAD[0], BAD[3]]
     done = []
     tests = []
     # corrupt real histories: drop a callback event (concurrent history), flip a take result (sequential one)
@@ -305,7 +311,7 @@ def run(ctx):
     ctx.extra['exhaustive'] = True
 
     # ---- E2: every transition of the state graph replayed on the real Queue
-    graphs = ctx.pick([('a', K0, ['in', 'out'], 4), ('b', K1, ['in'], 6)],
+    graphs = ctx.pick([('a', K0, ['in', 'out'], 4), ('b', K1, ['in'], 5)],
                       [('a', K0, ['in', 'out'], 5), ('b', K0, ['in'], 7), ('c', K1, ['in', 'out'], 5), ('d', K1, ['in'], 7)])
     for tag, kinds, events, n in graphs:
         graph_replay(ctx, drv, tag, kinds, events, n, state)
